@@ -183,6 +183,26 @@ def correspond(ctx):
             return '%s %d %d %d:%02d%s' % (MONTHS[x.month - 1].lower(), x.day, x.year, h12, x.minute, 'am' if x.hour < 12 else 'pm')
         jobs.append(('en-us', 'from %s to %s' % (fdt(a), fdt(b)), REF))
         meta.append(('datetime', a.strftime('%Y-%m-%d %H:%M:%S'), b.strftime('%Y-%m-%d %H:%M:%S'), int(delta.total_seconds())))
+    # date on the FIRST end point only, end time given to the second ("from jan 5 2018 3pm to 5:30:45pm")
+    for i in range(npairs):
+        a = datetime.datetime(2018, 1, 1) + datetime.timedelta(days=r.randint(0, 700), hours=r.choice([13, 14, 15, 16]))
+        b = a.replace(hour=r.choice([17, 18, 20, 22]), minute=r.choice([0, 5, 30, 59]), second=r.choice([0, 1, 15, 45, 59]))
+        h12 = lambda x: x.hour % 12 or 12
+        q = 'from %s %d %d %dpm to %d:%02d:%02dpm' % (MONTHS[a.month - 1].lower(), a.day, a.year, h12(a), h12(b), b.minute, b.second)
+        jobs.append(('en-us', q, REF))
+        meta.append(('datetime', a.strftime('%Y-%m-%d %H:%M:%S'), b.strftime('%Y-%m-%d %H:%M:%S'), int((b - a).total_seconds())))
+    # Chinese time ranges given to the second (afternoon hours, so the reading is unique)
+    for i in range(npairs):
+        h1 = r.randint(1, 9)
+        h2 = r.randint(h1 + 1, 11)
+        m1, m2 = r.choice([0, 5, 20, 59]), r.choice([0, 5, 20, 59])
+        if i % 3 == 0:
+            m2 = m1
+        s1, s2 = r.choice([0, 10, 40, 59]), r.choice([0, 15, 40, 59])
+        q = '下午%d点%d分%d秒到下午%d点%d分%d秒' % (h1, m1, s1, h2, m2, s2)
+        jobs.append(('zh-cn', q, REF))
+        meta.append(('time', '%02d:%02d:%02d' % (h1 + 12, m1, s1), '%02d:%02d:%02d' % (h2 + 12, m2, s2),
+                     (h2 - h1) * 3600 + (m2 - m1) * 60 + (s2 - s1)))
     res = dtpipe.run(jobs)
     ents, idx = [], []
     for k, (j, m, got) in enumerate(zip(jobs, meta, res)):
@@ -207,7 +227,7 @@ def correspond(ctx):
                 ents.append(e)
                 idx.append(k)
         if why:
-            ctx.report('property', 'explicit-range:%s:%s' % (m[0], 'from-to' if j[1].startswith('from') else 'between-and'),
+            ctx.report('property', 'explicit-range:%s:%s:%s' % (j[0], m[0], 'from-to' if j[1].startswith('from') else ('zh' if j[0] == 'zh-cn' else 'between-and')),
                        '%r: %s; got %r' % (j[1], why, got if isinstance(got, str) else [(e['text'], e['values']) for e in got][:3]),
                        failing_input={'query': j[1], 'expected': m, 'got': got if isinstance(got, str) else got[:3]},
                        property_fails=True)
@@ -215,7 +235,7 @@ def correspond(ctx):
         if all(t for (_s, _d, t) in vs):
             ctx.nontriv(('range', jobs[k][1]))
         else:
-            ctx.report('property', 'explicit-range-triple:%s' % meta[k][0], '%r: timex %r is not consistent with %r..%r' % (
+            ctx.report('property', 'explicit-range-triple:%s:%s' % (jobs[k][0], meta[k][0]), '%r: timex %r is not consistent with %r..%r' % (
                 jobs[k][1], e['values'][0].get('timex'), e['values'][0].get('start'), e['values'][0].get('end')),
                 failing_input={'query': jobs[k][1], 'entity': e}, property_fails=True)
 
